@@ -1,8 +1,8 @@
 SPECIFICATION Spec
 CONSTANTS
-  KindSet = {"att", "syncmsg"}
-  ConcSet = {1, 3}
-  ItemSet = {1, 5}
+  KindSet = {"att", "agg", "proposal", "syncmsg", "contrib", "bcsub", "scsub", "prep"}
+  ConcSet = {3}
+  ItemSet = {1}
   NodeCounts = {3}
   DefaultConc = 16
   MaxCalls = 1
@@ -10,9 +10,9 @@ CONSTANTS
   HistOutcomes = {}
   Design = "asks"
   MaxLat = 2
-  CanonOuts = {}
-  ConfSets = {}
-  OtherSets = {}
+  CanonOuts = {"accept", "reject", "slowok1", "slowok2", "slowrej1", "hang"}
+  ConfSets = {{1}, {1, 2}, {2, 3}, {1, 2, 3}}
+  OtherSets = {{1}}
   RefKind = "att"
 INVARIANTS TypeOK FlagSound TimeoutSignalHeard OfferedInFull SuccessIff ReturnsByTimeout Independence ClassifiedByNow
 CHECK_DEADLOCK FALSE
